@@ -843,6 +843,92 @@ func c14Purity(st *c14State) {
 	st.res.Counters["purity_objects"] = n
 }
 
+// c14CounterWraps: 32-bit call counters. A ring cursor, a generation or a statistics counter kept in an int32 / uint32
+// goes negative or back to zero after 2^31 / 2^32 calls of one function in one process -- more calls than any other
+// workload makes. 16 goroutines make 2^31 + 4,096 calls of the cheapest form of an exported function (ParseVector of a
+// rejected empty input; thorough: a second 2^31 to pass 2^32, and also Get, Vector, the first score, Rating and
+// Nomenclature on a valid object), every call checked for a panic and a plausible result; afterwards every alphabet
+// input of the version must still give its baseline.
+func c14CounterWraps(st *c14State, inputs []c14Input, quick bool) {
+	prev := runtime.GOMAXPROCS(16)
+	defer runtime.GOMAXPROCS(prev)
+	const G = 16
+	for vi, api := range probe.APIs {
+		api := api
+		v := api.Ver
+		valid := v.Canonical(v.ZeroAssign())
+		obj, _, _ := api.SafeParse(valid)
+		if obj == nil {
+			continue
+		}
+		wantVec, _ := probe.SafeVector(obj)
+		wantScore, _ := probe.SafeScore(obj, 0)
+		type op struct {
+			name string
+			f    func() bool
+		}
+		ops := []op{{"ParseVector(rejected)", func() bool { o, err, p := api.SafeParse(""); return p == nil && err != nil && o == nil }}}
+		if !quick {
+			ops = append(ops,
+				op{"Get", func() bool {
+					g, err, p := probe.SafeGet(obj, v.Metrics[0].Abv)
+					return p == nil && err == nil && g == v.Metrics[0].Values[0]
+				}},
+				op{"Score", func() bool { f, p := probe.SafeScore(obj, 0); return p == nil && f == wantScore }},
+				op{"Vector", func() bool { s, p := probe.SafeVector(obj); return p == nil && s == wantVec }})
+			if api.Nomencl != nil {
+				ops = append(ops, op{"Nomenclature", func() bool { n, p := api.SafeNomencl(obj); return p == nil && n == "CVSS-B" }})
+			}
+			if vi != spec.V20 {
+				ops = append(ops, op{"Rating", func() bool { r, err, p := api.SafeRating(5.0); return p == nil && err == nil && r == "MEDIUM" }})
+			}
+		}
+		for _, o := range ops {
+			if o.name == "Vector" && quick {
+				continue
+			}
+			phases := 1
+			if !quick && o.name != "Vector" && o.name != "Score" {
+				phases = 2
+			}
+			for ph := 0; ph < phases; ph++ {
+				per := (int64(1)<<31)/G + 256
+				var wg sync.WaitGroup
+				var bad atomic.Int64
+				for g := 0; g < G; g++ {
+					wg.Add(1)
+					go func() {
+						defer wg.Done()
+						for i := int64(0); i < per; i++ {
+							if !o.f() {
+								bad.Add(1)
+								return
+							}
+						}
+					}()
+				}
+				wg.Wait()
+				st.res.Counters["counter_wrap_calls"] += per * G
+				if bad.Load() > 0 {
+					st.mismatch(Violation{Kind: "result-depends-on-call-count", Version: v.Name, Steps: parseSteps(valid), Expected: o.name + " keeps answering as before", Observed: fmt.Sprintf("wrong result or panic within the %d. block of 2^31 calls of %s in this process", ph+1, o.name),
+						Detail: map[string]any{"workload": "counter-wraps", "note": "needs about 2^31 earlier calls: the replay makes one and will not reproduce it"}})
+					break
+				}
+			}
+		}
+		for i := range inputs {
+			in := &inputs[i]
+			if in.ver != vi {
+				continue
+			}
+			if got := sigParse(api, in.s); got != in.base {
+				st.mismatch(Violation{Kind: "result-depends-on-call-count", Version: v.Name, Steps: parseSteps(in.s), Expected: in.base, Observed: got, Detail: map[string]any{"workload": "counter-wraps", "note": "after more than 2^31 calls in this process"}})
+				break
+			}
+		}
+	}
+}
+
 // c14Periods: counter wrap-arounds. State that is "cleared" by bumping a generation counter instead of being
 // zeroed looks current again after exactly 2^8 or 2^16 calls. For every version: a vector X with every optional
 // metric defined, then d-1 calls on a base-only vector Y, then X again, for d in {255,256,257,65535,65536,65537};
@@ -1726,6 +1812,10 @@ func C14Child(mode, tier string, seed int64) {
 			}
 		}
 	}
+	if mode == "plain" {
+		// last, because it leaves every 32-bit call counter of the library past its wrap
+		c14CounterWraps(st, inputs, quick)
+	}
 	res.Events = st.events.Load()
 	res.Keys = len(st.keysBy)
 	for _, m := range st.keysBy {
@@ -1976,7 +2066,7 @@ func CheckC14(c *Ctx) {
 		totalEvents += res.Events + coldEvents
 		distinct += res.ContextPairs
 		summary[b.mode] = map[string]any{"events": res.Events, "distinct_keys": res.Keys, "keys_seen_by_2plus_goroutines": res.KeysMulti, "distinct_(previous,current)_context_pairs": res.ContextPairs,
-			"yields_taken": res.Yields, "sibling_singles": res.Counters["sibling_singles"], "aliased_input_calls": res.Counters["aliased_input_calls"], "period_probe_calls": res.Counters["period_probe_calls"], "poisoned_errors": res.Counters["poisoned_errors"], "purity_objects": res.Counters["purity_objects"], "poisoned_error_fields": res.Counters["poisoned_fields"], "sibling_pairs": res.Counters["sibling_pairs"], "sibling_triples": res.Counters["sibling_triples"], "hammer_calls": res.Counters["hammer_calls"], "hammer_phases": res.Counters["hammer_phases"], "hammer_pair_calls": res.Counters["hammer_pair_calls"], "hammer_pair_phases": res.Counters["hammer_pair_phases"], "strings_reverified": res.StringsRecheck, "sequences": res.Sequences, "pool_reuse_sequences_v2": res.PoolReuse, "race_report_blocks": raw, "race_reports_deduplicated": len(dedup),
+			"yields_taken": res.Yields, "sibling_singles": res.Counters["sibling_singles"], "aliased_input_calls": res.Counters["aliased_input_calls"], "period_probe_calls": res.Counters["period_probe_calls"], "poisoned_errors": res.Counters["poisoned_errors"], "purity_objects": res.Counters["purity_objects"], "counter_wrap_calls": res.Counters["counter_wrap_calls"], "poisoned_error_fields": res.Counters["poisoned_fields"], "sibling_pairs": res.Counters["sibling_pairs"], "sibling_triples": res.Counters["sibling_triples"], "hammer_calls": res.Counters["hammer_calls"], "hammer_phases": res.Counters["hammer_phases"], "hammer_pair_calls": res.Counters["hammer_pair_calls"], "hammer_pair_phases": res.Counters["hammer_pair_phases"], "strings_reverified": res.StringsRecheck, "sequences": res.Sequences, "pool_reuse_sequences_v2": res.PoolReuse, "race_report_blocks": raw, "race_reports_deduplicated": len(dedup),
 			"configurations": res.Configs, "wall_s": time.Since(t0).Seconds(), "inputs": res.Counters["inputs"], "fresh_process_baselines": res.Counters["fresh_process_baselines"],
 			"cold_start_processes": coldProcs, "cold_start_first_use_calls": coldEvents}
 		if b.mode == "race-instr" {
@@ -2023,7 +2113,7 @@ func CheckC14(c *Ctx) {
 		c.Extra["yield_points_inserted"] = s
 	}
 	c.SetReport(Report{
-		Rule:        "four builds of the CURRENT tree (plain; -race; -race after the AST yield-point pass that inserts seeded Gosched/sleep calls at loop heads and after call statements of go-cvss; -asan in thorough). In each: (1) baselines of ~40 inputs per version computed after forced double GC in forward and reverse order (must agree with each other, with the grammar/canonical-form oracles and -- plain build -- with the same call made as the first call of a fresh process; likewise every optional metric as the sole optional metric of a vector, each value, each in its own fresh process); (2) sequential histories hostile to pooled scratch buffers under GOMAXPROCS(1)+GC off: ALL ordered pairs per version, all triples for v2 (1/7 for others), random sequences of 2-50 calls across versions -- every result must equal its baseline; (3) goroutines {4,8,16,64} x GOMAXPROCS {1,2,16} hammering the small shared input set, plus a hot-keys phase per repetition over only 2-4 inputs (parse, everything observable of shared read-only objects, Set on local copies, parse-mutate-parse, Rating) with results compared to baselines; (0) cold concurrent starts: short-lived processes in which NO go-cvss call has happened yet release 8-24 goroutines together, round by round, on the same parse + score + Vector + Nomenclature + Get of every metric + Rating (all three rating-capable versions) calls (550 first-use rounds each), judged against the spec oracles; (3b) hammer phases: G goroutines calling ONE method on the same 4 objects in a tight loop with nothing of the harness in between (one phase per scoring method, Vector and ParseVector, per version and repetition; G x GOMAXPROCS in {16x16, 8x4, 4x2, 32x16, 3x3}, plus crowd phases with 256 and 1,024 goroutines on 16 Ps), each result compared with the quiescent value; pair phases: half of the goroutines call method A, the other half a different method B (scores, Vector, ParseVector of valid and of rejected input, Set+Get on a private copy; same or another CVSS version), 24 seeded pairs per repetition; (2b) sibling histories (plain, asan): for 3 (thorough 12) background objects per version EVERY object differing from it in exactly one or exactly two metrics (one background, thorough 3: also exactly three), in the histories unrelated,A / A,B / B,A -- results must equal the reference after the unrelated call; (2d) period probes (plain, asan): a vector with every optional metric defined, d-1 calls on a base-only vector, the first vector again, for d in {255,256,257,65535,65536,65537} on one P with GC off -- every result must equal its reference (generation counters that wrap); (2f) purity (plain, asan): every packed-corner and literal-guided object is parsed, cloned, observed through every read-only method and must still be == its clone and give the same observations again; (2e) poisoned errors: every rejected input is parsed, the exported fields of the returned error are overwritten by the caller (reflection) and the input is parsed again, likewise Get/Set on unknown abbreviations -- the second result must equal the baseline; (2c) aliased inputs (all builds but the yield pass): all ordered pairs per version with both inputs written into ONE reused buffer and passed as views of it, and as fresh heap copies dropped at once with a GC every 8 calls -- results must equal the baselines; (4) every Vector() string kept next to an immediate clone and re-compared later, forced GC every 10k events; (5) elapsed time: one plain-build process goes idle and wakes at process ages 0.5/1.5/3.5/7.5/15.5/47 s (thorough: also 110/300/910 s), each time making every alphabet call in a rotated order, re-reading the objects parsed at the start and re-setting every metric of clones to its own value -- all must equal the baselines (time is the stimulus, equality the verdict). Race reports are counted from the GORACE log (never from the exit code) and de-duplicated by first-frame pair. evaluations = events; distinct = distinct (previous call, current call) context pairs summed over builds",
+		Rule:        "four builds of the CURRENT tree (plain; -race; -race after the AST yield-point pass that inserts seeded Gosched/sleep calls at loop heads and after call statements of go-cvss; -asan in thorough). In each: (1) baselines of ~40 inputs per version computed after forced double GC in forward and reverse order (must agree with each other, with the grammar/canonical-form oracles and -- plain build -- with the same call made as the first call of a fresh process; likewise every optional metric as the sole optional metric of a vector, each value, each in its own fresh process); (2) sequential histories hostile to pooled scratch buffers under GOMAXPROCS(1)+GC off: ALL ordered pairs per version, all triples for v2 (1/7 for others), random sequences of 2-50 calls across versions -- every result must equal its baseline; (3) goroutines {4,8,16,64} x GOMAXPROCS {1,2,16} hammering the small shared input set, plus a hot-keys phase per repetition over only 2-4 inputs (parse, everything observable of shared read-only objects, Set on local copies, parse-mutate-parse, Rating) with results compared to baselines; (0) cold concurrent starts: short-lived processes in which NO go-cvss call has happened yet release 8-24 goroutines together, round by round, on the same parse + score + Vector + Nomenclature + Get of every metric + Rating (all three rating-capable versions) calls (550 first-use rounds each), judged against the spec oracles; (3b) hammer phases: G goroutines calling ONE method on the same 4 objects in a tight loop with nothing of the harness in between (one phase per scoring method, Vector and ParseVector, per version and repetition; G x GOMAXPROCS in {16x16, 8x4, 4x2, 32x16, 3x3}, plus crowd phases with 256 and 1,024 goroutines on 16 Ps), each result compared with the quiescent value; pair phases: half of the goroutines call method A, the other half a different method B (scores, Vector, ParseVector of valid and of rejected input, Set+Get on a private copy; same or another CVSS version), 24 seeded pairs per repetition; (2b) sibling histories (plain, asan): for 3 (thorough 12) background objects per version EVERY object differing from it in exactly one or exactly two metrics (one background, thorough 3: also exactly three), in the histories unrelated,A / A,B / B,A -- results must equal the reference after the unrelated call; (2d) period probes (plain, asan): a vector with every optional metric defined, d-1 calls on a base-only vector, the first vector again, for d in {255,256,257,65535,65536,65537} on one P with GC off -- every result must equal its reference (generation counters that wrap); (2g) 32-bit call counters (plain, last): 16 goroutines make 2^31 + 4,096 ParseVector calls per version (thorough: 2^32, and also Get, Score, Vector, Nomenclature, Rating), each checked, then the whole alphabet is re-checked; (2f) purity (plain, asan): every packed-corner and literal-guided object is parsed, cloned, observed through every read-only method and must still be == its clone and give the same observations again; (2e) poisoned errors: every rejected input is parsed, the exported fields of the returned error are overwritten by the caller (reflection) and the input is parsed again, likewise Get/Set on unknown abbreviations -- the second result must equal the baseline; (2c) aliased inputs (all builds but the yield pass): all ordered pairs per version with both inputs written into ONE reused buffer and passed as views of it, and as fresh heap copies dropped at once with a GC every 8 calls -- results must equal the baselines; (4) every Vector() string kept next to an immediate clone and re-compared later, forced GC every 10k events; (5) elapsed time: one plain-build process goes idle and wakes at process ages 0.5/1.5/3.5/7.5/15.5/47 s (thorough: also 110/300/910 s), each time making every alphabet call in a rotated order, re-reading the objects parsed at the start and re-setting every metric of clones to its own value -- all must equal the baselines (time is the stimulus, equality the verdict). Race reports are counted from the GORACE log (never from the exit code) and de-duplicated by first-frame pair. evaluations = events; distinct = distinct (previous call, current call) context pairs summed over builds",
 		DistinctN:   distinct,
 		Assumptions: []string{"the race detector sees only executed pairs of accesses; interleavings are explored, not enumerated", "dependence on elapsed time is observed only up to the idle gaps lived through (31.5 s quick, 10 min thorough); dependence on the environment (variables, files, clock date) is not driven", "in the plain build every baseline is also recomputed as the first call of a freshly started process; the sanitizer builds rely on the double-GC baseline"},
 	})
